@@ -435,3 +435,22 @@ pub fn finish(spec: &Spec, args: &Args, start: Instant, acc: Acc, extra: Extra) 
     }
     std::process::exit(0)
 }
+
+
+// ------------------------------------------------------------------------------------------
+// call histories
+
+/// An order over an alphabet of `n` calls in which every ordered pair (a, b), including (a, a), occurs as two
+/// consecutive calls: the complete set of histories of length two, concatenated (2·n² calls). Used by the drivers'
+/// single-thread "history" units: a result must not depend on which call came before (hidden caches, lazily built
+/// tables, scratch buffers that are not reset).
+pub fn pair_order(n: usize) -> Vec<usize> {
+    let mut v = Vec::with_capacity(2 * n * n);
+    for a in 0..n {
+        for b in 0..n {
+            v.push(a);
+            v.push(b);
+        }
+    }
+    v
+}
